@@ -120,6 +120,15 @@ func genC19(t *rapid.T) c19Case {
 						w = strVal(strings.ReplaceAll(string(v.S), "\r", ""))
 					}
 				}
+				if v.Kind == "str" && rapid.IntRange(0, 5).Draw(t, "finalnewline") == 0 {
+					// the two values differ in ONE final newline only (an end-of-file fixer, a value that lost its last newline)
+					if rapid.Bool().Draw(t, "recordedhasit") {
+						v, w = strVal(string(v.S)+"\n"), strVal(string(v.S))
+						cc.Call = Call{API: "ssnap", Vals: []Val{v}}
+					} else {
+						w = strVal(string(v.S) + "\n")
+					}
+				}
 				if w.Text() != v.Text() {
 					cc.New = &Call{API: "ssnap", Vals: []Val{w}}
 				}
